@@ -257,7 +257,7 @@ def execTarget (P : Params κ) (cfg : Cfg) (defs : Defs) (t : Target) (k : κ) (
   | none => (s2, false)
   | some ovs =>
     let nc := t.noCache || !cfg.enableCache
-    let oh : OH κ := if nc then .nocache ovs else if t.outs.isEmpty then .self k else .outs ovs
+    let oh : OH κ := if t.outs.isEmpty then .self k else if nc then .nocache ovs else .outs ovs
     let res : Result κ := { oh := oh, outs := if nc then [] else ovs }
     let cas' := if nc then s.cache.cas else addBlobs s.cache.cas ovs
     let taint' := if clr && P.fx.syncTaint then upd s.cache.taint t.label false else s.cache.taint
